@@ -604,7 +604,9 @@ func ruleEnumGuard(c *Ctx) []Obligation {
 		return []Obligation{bad(R, "Set records the member in both maps", c.Pos(set.Pos()), fmt.Sprintf("%d map stores", len(stores)))}
 	}
 	obs = append(obs, ok(R, "Set records the member in both maps", c.InstrPos(stores[0]), "ToString[value] = name; ToInt[name] = value"))
-	name, value := ssa.Value(set.Params[1]), ssa.Value(set.Params[2])
+	// parameters may live in cells when a closure or defer captures them: compare through isParamN
+	isName := func(v ssa.Value) bool { return isParamN(set, v, 1) }
+	isValue := func(v ssa.Value) bool { return isParamN(set, v, 2) }
 	type rej struct {
 		con   string
 		match func(ifi *ssa.If) (errSucc *ssa.BasicBlock)
@@ -620,7 +622,7 @@ func ruleEnumGuard(c *Ctx) []Obligation {
 				return nil
 			}
 			l, okl := ex.Tuple.(*ssa.Lookup)
-			if okl && loadOf(l.X, fToInt) && l.Index == name {
+			if okl && loadOf(l.X, fToInt) && isName(l.Index) {
 				return ifi.Block().Succs[0]
 			}
 			return nil
@@ -630,7 +632,7 @@ func ruleEnumGuard(c *Ctx) []Obligation {
 			found := false
 			backSliceCond(ifi.Cond, func(x ssa.Value) {
 				if ex, ok := x.(*ssa.Extract); ok && ex.Index == 1 {
-					if l, okl := ex.Tuple.(*ssa.Lookup); okl && loadOf(l.X, fToString) && l.Index == value {
+					if l, okl := ex.Tuple.(*ssa.Lookup); okl && loadOf(l.X, fToString) && isValue(l.Index) {
 						found = true
 					}
 				}
@@ -677,14 +679,14 @@ func ruleEnumGuard(c *Ctx) []Obligation {
 		}},
 		{"a value below the type's minimum is rejected", func(ifi *ssa.If) *ssa.BasicBlock {
 			bo, ok := ifi.Cond.(*ssa.BinOp)
-			if ok && bo.Op == token.LSS && bo.X == value && loadOf(bo.Y, fMin) {
+			if ok && bo.Op == token.LSS && isValue(bo.X) && loadOf(bo.Y, fMin) {
 				return ifi.Block().Succs[0]
 			}
 			return nil
 		}},
 		{"a value above the type's maximum is rejected", func(ifi *ssa.If) *ssa.BasicBlock {
 			bo, ok := ifi.Cond.(*ssa.BinOp)
-			if ok && bo.Op == token.GTR && bo.X == value && loadOf(bo.Y, fMax) {
+			if ok && bo.Op == token.GTR && isValue(bo.X) && loadOf(bo.Y, fMax) {
 				return ifi.Block().Succs[0]
 			}
 			return nil
@@ -729,12 +731,12 @@ func ruleEnumGuard(c *Ctx) []Obligation {
 	con := "the running maximum is raised to every recorded value that exceeds it"
 	okLast := false
 	for _, st := range storesToField(set, fLast) {
-		if st.Val != value {
+		if !isValue(st.Val) {
 			continue
 		}
 		for _, g := range guardsAt(st.Block()) {
 			bo, ok := g.Cond.(*ssa.BinOp)
-			if ok && g.Branch && (bo.Op == token.GEQ || bo.Op == token.GTR) && bo.X == value && loadOf(bo.Y, fLast) {
+			if ok && g.Branch && (bo.Op == token.GEQ || bo.Op == token.GTR) && isValue(bo.X) && loadOf(bo.Y, fLast) {
 				if reaches(stores[0], st) || dominates(stores[0], st) {
 					okLast = true
 				}
